@@ -120,7 +120,7 @@ func cmdRun(mode string, args []string) int {
 	fs.StringVar(&cfg.Property, "property", "", "property id")
 	fs.IntVar(&cfg.MaxDecisions, "max-decisions", 400, "decisions per path (unwinding bound)")
 	fs.IntVar(&cfg.MaxConcretize, "max-concretize", 300, "values per concretisation")
-	fs.IntVar(&cfg.MaxPreempt, "preempt", 2, "pre-emption bound")
+	fs.IntVar(&cfg.MaxPreempt, "preempt", 0, "delay bound: scheduling deviations (incl. timer firings while threads can run) per path")
 	fs.Int64Var(&cfg.MaxSteps, "max-steps", 20000000, "instructions per path")
 	fs.IntVar(&cfg.MaxDepth, "max-depth", 400, "call depth")
 	fs.IntVar(&cfg.MaxAlloc, "max-alloc", 1<<16, "largest make() the engine materialises")
